@@ -29,7 +29,11 @@ type Tap struct {
 	accept   func([]byte) bool
 	pos      int
 	Mismatch bool // replay: a read did not match the recorded length
+	// Exhausted: zero mode served more than zeroReadsLimit reads (the consumer kept re-sampling)
+	Exhausted bool
 }
+
+const zeroReadsLimit = 256
 
 const (
 	Record = iota
@@ -100,8 +104,15 @@ func (t *Tap) Read(p []byte) (int, error) {
 	seq := len(t.reads)
 	switch t.mode {
 	case Zero:
+		// a prover may re-sample until a scalar is non-zero: after a generous number of zero
+		// reads the stream turns into a non-zero constant so that such a loop ends (Exhausted)
+		fill := byte(0)
+		if len(t.reads) >= zeroReadsLimit {
+			fill = 1
+			t.Exhausted = true
+		}
 		for i := range p {
-			p[i] = 0
+			p[i] = fill
 		}
 	case Replay:
 		if t.pos < len(t.replay) && len(t.replay[t.pos].Bytes) == len(p) && !t.subst[t.pos] {
